@@ -116,6 +116,9 @@ type InterpModel struct {
 	// the two error flags fork over both values
 	// Unroll: nested activations of one helper function inlined (Machine.Unroll)
 	Unroll   int
+	// StateCap: a smaller state budget for explorations of small functions (0: the machine's default) — a walk that never
+	// converges should end as "undecided" after seconds, not after gigabytes
+	StateCap int
 	MainMode bool
 	// InlinePkg: in MainMode, callees of this package are inlined too (except InlineStop names)
 	InlinePkg  string
@@ -873,6 +876,9 @@ func (m *InterpModel) Explore(fn *ssa.Function, params []AV, init func(*State)) 
 	m.Attach(mc)
 	mc.Inline = func(c *ssa.Function) bool { return true }
 	mc.Unroll = m.Unroll
+	if m.StateCap > 0 && m.StateCap < mc.MaxStates {
+		mc.MaxStates = m.StateCap
+	}
 	mc.Start(fn, params, func(st *State) {
 		m.setNode(st, m.G.Start)
 		if init != nil {
